@@ -91,6 +91,12 @@ def run(ctx) -> None:
     check_resettable(ctx)
     ctx.rule("C03.bounded", "T2: under its bound arguments an undo entry writes only cells the operation writes", floor=10)
     check_bounded(ctx, regs)
+    # undo entries are ordinary calls of the public editing methods: one that silently skips part of its argument
+    # (a group that refuses a member without a model pointer) leaves the block with the change in place (shared with C02)
+    from . import genesform
+
+    ctx.rule("C02.group", "finite evaluation: Group.add_members adds every given object, remove_members removes exactly those (shared with C02; undo entries of the removal functions)", floor=1)
+    ctx.guard(genesform.check_group_members, ctx, "C02.group")
 
 
 
